@@ -11,6 +11,9 @@
   availability       truthful availability query; hint bits written only when candidates arrive, and exactly
                      for the candidates the provider's hint names (None / All / Some arms)
   no-guard-across-await  re-entrant cache use from sort_candidates cannot hit a held RefCell borrow
+
+Added after the second and third seeding rounds:
+  hint-bits-grow-only / hint-bits-only-set-true  the hint bit vector only grows and bits are only switched on
 """
 from common import *
 import q, mech
